@@ -100,7 +100,10 @@ def judge(spec, inp, out, ob):
                 bad.append("to_list gave %s expected %s" % (got, exp))
     elif part == "from_list":
         lsts = out["lsts"]
-        if True:
+        if not spec["nested"] and len(lsts[0]) == 0:
+            if out["res"] != []:
+                bad.append("from_list([]) gave %s, documented result is an empty array" % out["res"])
+        else:
             for g, l in enumerate(lsts):
                 exp = [((1 + l.index(i)) if spec["cls"] == "integer" else 1) if i in l else 0 for i in ids]
                 got = out["res"][g] if spec["nested"] else [r[0] for r in out["res"]]
